@@ -201,7 +201,7 @@ theorem createMembers_names : ∀ (fuel : Nat) (ms : List Y) (seen : List String
             · simp [hs, hk] at h
             · simp only [List.contains_eq_mem, hs, hk, decide_false, Bool.false_eq_true, if_false, pure, Except.pure] at h
               -- the rest of the member's checks, then the recursive call
-              have hrest : createMembers f rest (name :: seen) = .ok () := by
+              have hrest : ∃ seen', createMembers f rest seen' = .ok () ∧ ∀ x, x ∈ name :: seen → x ∈ seen' := by
                 revert h
                 cases mv with
                 | map mm =>
@@ -221,10 +221,22 @@ theorem createMembers_names : ∀ (fuel : Nat) (ms : List Y) (seen : List String
                         · simp
                         · cases createFt f (Y.map ftm) with
                           | error e => simp
-                          | ok k => simp
+                          | ok k =>
+                            simp only
+                            split
+                            · simp
+                            · intro h
+                              refine ⟨_, h, ?_⟩
+                              intro x hx
+                              split
+                              · exact List.mem_cons_of_mem _ hx
+                              · exact hx
                     | _ => simp
                 | _ => simp
-              obtain ⟨hnd, hmem, heq⟩ := ih rest (name :: seen) hrest
+              obtain ⟨seen', hrest', hsub⟩ := hrest
+              obtain ⟨hnd, hmem0, heq⟩ := ih rest seen' hrest'
+              have hmem : ∀ n ∈ rest.filterMap memberName, n ∉ name :: seen ∧ n ∉ ctfKeywords :=
+                fun n hn => ⟨fun hin => (hmem0 n hn).1 (hsub n hin), (hmem0 n hn).2⟩
               have hs' : name ∉ seen := hs
               have hk' : name ∉ ctfKeywords := hk
               refine ⟨?_, ?_, ?_⟩
